@@ -454,6 +454,16 @@ func realiseBase(v J, r *Repr, path, h string) (any, error) {
 				ms = append(ms, yaml.MapItem{Key: fmt.Sprintf("k%d", i), Value: e})
 			}
 			return ms, nil
+		case "anyslices": // [][]any: the element type is itself a slice type
+			t := make([][]any, len(out))
+			for i, e := range out {
+				sl, ok := e.([]any)
+				if !ok {
+					return nil, fmt.Errorf("repr anyslices: element %d is %T", i, e)
+				}
+				t[i] = sl
+			}
+			return t, nil
 		case "maps":
 			t := make([]map[string]any, len(out))
 			for i, e := range out {
